@@ -127,29 +127,46 @@ def check_load_first(ctx):
     t = enforce_table(ctx, inline_gate=False)
     enf = t.enf
     bad = None
+    STORES = ('self.rules', 'self.file_rules', 'self.registered_rules')
+
+    def touches(node):
+        txt = U(node)
+        return any(s in txt for s in STORES)
     for p in t.paths:
-        first = None
-        for e in p.events:
-            if e.kind in ('call', 'store'):
-                first = e
-                break
-        g = prog.callee_of(enf, first.node) if first is not None and \
-            first.kind == 'call' else None
-        if g is None or g.qual != ENF + '.load_rules' or first.nconds != 0:
-            bad = (p, first)
+        load = None
+        for i, e in enumerate(p.events):
+            if e.kind == 'call':
+                g = prog.callee_of(prog.functions.get(e.frame, enf), e.node)
+                if g is not None and g.qual == ENF + '.load_rules':
+                    load = (i, e)
+                    break
+        if load is None:
+            bad = (p, 'no call of load_rules() on this path')
             break
-        if first.node.args or first.node.keywords:
-            a = kwarg(first.node, 'force_reload', 0)
-            if a is not None and not is_const(a, False):
-                bad = (p, first)
-                break
+        i, e = load
+        a = kwarg(e.node, 'force_reload', 0)
+        if a is not None and not is_const(a, False):
+            bad = (p, 'load_rules is called with force_reload=%s' % U(a))
+            break
+        early = [x for x in p.events[:i] if x.kind in ('store', 'aug', 'del')
+                 or touches(x.node)]
+        early_c = [c for c in p.conds[:e.nconds] if touches(c.expr)]
+        if early or early_c:
+            bad = (p, 'the rule stores are used before load_rules(): %s' % (
+                (early[0].text() if early else early_c[0].text())))
+            break
+        if e.nconds and any(c.kind == 'test' for c in p.conds[:e.nconds]) \
+                and not all('LOG' in U(c.expr) or 'isEnabledFor' in U(c.expr)
+                            for c in p.conds[:e.nconds]):
+            bad = (p, 'load_rules() is called only under the condition %s'
+                   % ' and '.join(c.text() for c in p.conds[:e.nconds]))
+            break
     ctx.count(len(t.paths))
     ctx.ob('C10.LOAD-FIRST', bad is None, ctx.where(enf.module, enf.node),
-           enf.qual, 'first action on %d paths' % len(t.paths),
+           enf.qual, 'load before use on %d paths' % len(t.paths),
            'every enforcement call refreshes the rules before reading them'
            if bad is None else 'enforce does not unconditionally call '
-           'load_rules() before anything else (first action: %s)' % (
-               bad[1].text() if bad[1] is not None else 'none'))
+           'load_rules() before using the rule stores: %s' % bad[1])
 
 
 def check_stale(ctx):
